@@ -619,6 +619,8 @@ Rock::Rebuild::finalizeOrThrow(const sfileno fileNo, LoadingEntry &le)
     /* no hodgepodge entries: one entry - one full chain and no leftovers */
     Must(slotId < 0);
     Must(mappedSize == le.size);
+    // the inode (or its swap metadata) may have promised more than we have loaded
+    Must(!anchor.basics.swap_file_sz || anchor.basics.swap_file_sz == le.size);
 
     if (!anchor.basics.swap_file_sz)
         anchor.basics.swap_file_sz = le.size;
